@@ -142,6 +142,7 @@ class TilingMonitor(Monitor):
         if self.check_durations and post["chans"] and not ev.ro:
             seq = ev.seq
             ends = {}
+            falls: dict = {}
             for n, c in post["chans"].items():
                 end = chan_end(c)
                 ends[n] = end
@@ -155,6 +156,7 @@ class TilingMonitor(Monitor):
                 if d0 != end:
                     ctx.violation("duration", f"get_duration({n})={d0} but last instruction ends at {end}", "duration")
                 lo, hi = pending_fall_bounds(c)
+                falls[n] = (lo, hi, d1)
                 if not (lo <= d1 <= hi):
                     ctx.violation("duration-fall", f"get_duration({n}, include_fall_time=True)={d1}, expected in [{lo},{hi}] "
                                   f"(end {end})", "duration-fall")
@@ -164,6 +166,20 @@ class TilingMonitor(Monitor):
                 tot = seq.get_duration()
                 if tot != max(ends.values()):
                     ctx.violation("duration", f"get_duration()={tot} but channels end at {ends}", "duration-total")
+                if len(falls) == len(ends):
+                    # the sequence has not ended before every channel is at rest: the total with pending fall
+                    # times is the maximum over the channels, whichever of them holds the last instruction
+                    totf = seq.get_duration(include_fall_time=True)
+                    ctx.count("duration_total_fall_checks")
+                    lo, hi = max(f[0] for f in falls.values()), max(f[1] for f in falls.values())
+                    per = max(f[2] for f in falls.values())
+                    last = max(ends, key=lambda k: ends[k])
+                    if falls[last][1] < hi:
+                        ctx.count("duration_total_fall_set_by_earlier_channel")
+                    if not (lo <= totf <= hi) or (totf != per and all(f[0] <= f[2] <= f[1] for f in falls.values())):
+                        ctx.violation("duration-fall", f"get_duration(include_fall_time=True)={totf}, expected "
+                                      f"max over channels in [{lo},{hi}] (per channel (lo, hi, reported): {falls})",
+                                      "duration-total-fall")
             except Exception as e:
                 ctx.violation("duration-query", f"get_duration() raised {e!r}", "duration-raise")
 
